@@ -163,6 +163,10 @@ def released(idx_old, map_old):
 
 def owner_insts(tier):
     out = []
+    # base case of the owner invariant: a default-constructed owner is empty (every field, whatever the storage held before)
+    cl = [('a_fresh_owner_is_empty', '__CPROVER_ensures($ret.idx == 0 && $ret.map == 0 && $ret.idx_unsandboxed == 0)'), ('frame', '__CPROVER_assigns()')]
+    out.append(Inst('c15_owner_default_constructor', '', 'app_pointer<int*, vsbx> p; (void)p;', cl, '  struct %s p = $ROOT();\n' % AP, leaves=[], prop=PROP, root_name='app_pointer',
+                    tier=tier, pre=OWNER_GHOST, root_pick=lambda tu, fn: find_func(tu, 'app_pointer', 'rlbox::app_pointer<int *, rlbox::vsbx>', lambda f, rn: f['type']['qualType'].startswith('void ()'))))
     OLDI, OLDM = '__CPROVER_old($this->idx)', '__CPROVER_old($this->map)'
     inert = '($this->idx == 0 && $this->map == 0 && $this->idx_unsandboxed == 0)'
     for form in ('unregister', 'destructor'):
@@ -265,5 +269,5 @@ ASSUMPTIONS = [
 TRUSTED = ['the array view of std::map (vlib/models.py, M-map)']
 MANIFEST = {
     'level_text': 'The token table is verified against its abstract view (a partial function token -> pointer): registration returns a token in 1..limit that was free, makes exactly that token resolve to the pointer and leaves every other token unchanged (ghost witness index), aborting only when every token in 1..limit is in use; lookup returns the registered pointer or aborts; release removes exactly the token. The two scans of get_unused_index are closed by loop contracts (inductive invariants, decreases clauses), so the result holds for every table state and every limit - no bound on histories. Token type uint8 with all limits 1..254 symbolic.',
-    'level_note': 'Assumes the M-map model of std::map. 16/32/64-bit token types use the same instantiated code with a wider key (16-bit: the 65536-entry view times out; wider: dfcc cannot frame writes into an unbounded array view, measured, DESIGN.md section 2), so they are not claimed here. Owner objects (app_pointer move/destroy) are separate instances.',
+    'level_note': 'Assumes the M-map model of std::map. 16/32/64-bit token types use the same instantiated code with a wider key (16-bit: the 65536-entry view times out; wider: dfcc cannot frame writes into an unbounded array view, measured, DESIGN.md section 2), so they are not claimed here. Owner objects (app_pointer move/destroy) are separate instances. A default-constructed owner is empty and owners are not copyable (type traits of the real class).',
 }
